@@ -184,6 +184,37 @@ def place_producer(body, pl, depth):
     return rv['k']
 
 
+def array_range_is_safe(body, t, full):
+    """`array[a..b]` / `array[..b]` / `array[a..]` on a fixed-size array with compile-time bounds inside the array"""
+    if not re.search(r'Index(Mut)?<I> for \[T; N\]>::index(_mut)?$|ops::Index(Mut)?::index(_mut)?$', full):
+        return False
+    if len(t['args']) != 2 or t['args'][0].get('k') not in ('copy', 'move'):
+        return False
+    ty = t['args'][0]['place']['ty']
+    m = re.match(r"^&(?:'[a-z_0-9]+ )?(?:mut )?\[[^;\]]+; (\d+)\]$", ty)
+    if not m:
+        return False
+    n = int(m.group(1))
+    r = t['args'][1]
+    if r.get('k') not in ('copy', 'move') or r['place']['p']:
+        return False
+    ds = defs_of(body, r['place']['l'])
+    if len(ds) != 1 or ds[0][0] != 'assign' or ds[0][1]['k'] != 'agg' or ds[0][1].get('agg') != 'adt' or not ds[0][1]['adt'].startswith('std::ops::Range'):
+        return False
+    rv = ds[0][1]
+    vals = {}
+    for name, op in zip(rv['fields'], rv['ops']):
+        c = const_int(body, op)
+        if c is None:
+            return False
+        vals[name] = c[0]
+    lo = vals.get('start', 0)
+    hi = vals.get('end', n)
+    if rv['adt'].endswith('RangeInclusive') or rv['adt'].endswith('RangeToInclusive'):
+        return False
+    return 0 <= lo <= hi <= n
+
+
 def sites(ctx):
     out = []
     for body in ctx.f.body_list:
@@ -231,6 +262,8 @@ def sites(ctx):
                     # the explicit macro that produced the panic (assert!, unreachable!, panic!, assert_eq!) and its condition
                     desc = 'diverge:%s[%s]' % (short(path), '/'.join(x for x in macro if x in ('assert', 'assert_eq', 'assert_ne', 'unreachable', 'panic', 'todo', 'unimplemented', 'debug_assert', 'select', 'tokio::select', 'pin')) or m)
                     out.append({'body': body.path, 'block': i, 'kind': 'diverge', 'desc': desc, 'sp': t['sp'], 'macro': macro})
+                elif array_range_is_safe(body, t, full):
+                    out.append({'body': body.path, 'block': i, 'kind': 'call', 'desc': 'const-safe:array-range', 'sp': t['sp'], 'macro': macro, 'auto': 'constant range within a fixed-size array'})
                 elif PANIC_CALL_RX.search(path) or PANIC_CALL_RX.search(full):
                     a0 = producer(body, t['args'][0]) if t['args'] else ''
                     a1 = producer(body, t['args'][1]) if len(t['args']) > 1 else None
